@@ -87,3 +87,36 @@ Proof.
   { unfold e1. rewrite terminal_is_final_ops; auto; now rewrite S1'. }
   split; [exact Sf|]. apply terminal_rejects; auto. now rewrite Sf.
 Qed.
+
+(* order of a sequence: a task created through the `next` link of its predecessor -- the next step of a sequence, the next
+   act of a step -- is created when the predecessor is in a terminal state, and (unless that state is an error a catch may
+   still take) the predecessor stays in it for the rest of the run *)
+Theorem next_link_after_terminal ns c0 ops l1 l2 t nid p at_ :
+  trace (run ns c0 ops) = l1 ++ ENew t nid (Some p) at_ VNext :: l2 ->
+  is_completed (cur c_none l1 p) = true /\
+  (cur c_none l1 p <> SError -> st (run ns c0 ops) p = cur c_none l1 p).
+Proof.
+  intros E. destruct (log_faithful ns c0 ops) as [H Hc]. pose proof H as H0. rewrite E in H. apply logok_at in H. cbn [evok] in H.
+  split; [exact H|]. intros He.
+  destruct (run_J ns c0 ops) as ((HP & _) & _). unfold P in HP. rewrite E in HP, H0.
+  rewrite forallb_app in HP. apply andb_true_iff in HP as [_ HP]. rewrite logok_app in H0. apply andb_true_iff in H0 as [_ H0].
+  rewrite <- Hc, E, cur_app. now apply terminal_nonerror_stays.
+Qed.
+
+(* the messages of one task come in lifecycle order: between two messages of a task with no revival of it in between, the
+   stage of the reported state does not decrease and a terminal report is never followed by a different one *)
+Theorem messages_in_lifecycle_order ns c0 ops l1 l2 l3 t s1 i1 o1 s2 i2 o2 :
+  trace (run ns c0 ops) = l1 ++ EMsg t s1 i1 o1 :: l2 ++ EMsg t s2 i2 o2 :: l3 -> ~ In t (revivals l2) ->
+  stage s1 <= stage s2 /\ (is_completed s1 = true -> s2 = s1).
+Proof.
+  intros E Hr.
+  destruct (message_reports_current ns c0 ops l1 (l2 ++ EMsg t s2 i2 o2 :: l3) t s1 i1 o1 E) as (E1 & _).
+  assert (E' : trace (run ns c0 ops) = (l1 ++ EMsg t s1 i1 o1 :: l2) ++ EMsg t s2 i2 o2 :: l3) by (rewrite E, <- app_assoc; reflexivity).
+  destruct (message_reports_current ns c0 ops _ l3 t s2 i2 o2 E') as (E2 & _).
+  destruct (log_faithful ns c0 ops) as [Hl _]. destruct (run_J ns c0 ops) as ((HP & _) & _). unfold P in HP.
+  rewrite E' in Hl, HP. rewrite logok_app in Hl. apply andb_true_iff in Hl as [Hl _]. rewrite forallb_app in HP. apply andb_true_iff in HP as [HP _].
+  rewrite logok_app in Hl. apply andb_true_iff in Hl as [_ Hl]. rewrite forallb_app in HP. apply andb_true_iff in HP as [_ HP].
+  cbn [logok forallb] in Hl, HP. apply andb_true_iff in Hl as [_ Hl]. apply andb_true_iff in HP as [_ HP].
+  rewrite cur_app in E2. cbn [cur cstep] in E2. rewrite E1, E2.
+  now apply history_forward.
+Qed.
